@@ -381,8 +381,14 @@ func (n *node) startRaft(cfg config.Config,
 
 func (n *node) close() {
 	n.requestRemoval()
+	if verifEnabled {
+		verifYield("node.close.stopped")
+	}
 	n.raftEvents.close()
 	n.mq.Close()
+	if verifEnabled {
+		verifYield("node.close.queues")
+	}
 	n.pendingReadIndexes.close()
 	n.pendingProposals.close()
 	n.pendingConfigChange.close()
@@ -1296,6 +1302,9 @@ func (n *node) handleProposals() (bool, error) {
 	}
 	paused := logDBBusy || n.rateLimited
 	if entries := n.incomingProposals.get(paused); len(entries) > 0 {
+		if verifEnabled {
+			verifYield("node.handleProposals")
+		}
 		n.qs.record(pb.Propose)
 		if err := n.p.ProposeEntries(entries); err != nil {
 			return false, err
@@ -1307,6 +1316,9 @@ func (n *node) handleProposals() (bool, error) {
 
 func (n *node) handleReadIndex() (bool, error) {
 	if reqs := n.incomingReadIndexes.get(); len(reqs) > 0 {
+		if verifEnabled {
+			verifYield("node.handleReadIndex")
+		}
 		n.qs.record(pb.ReadIndex)
 		ctx := n.pendingReadIndexes.nextCtx()
 		n.pendingReadIndexes.add(ctx, reqs)
